@@ -69,7 +69,7 @@ def run(ctx):
     if env is None:
         return
     exe, judge, dump = env
-    nvalid, nmal = (6000, 6000) if ctx.thorough() else (900, 1300)
+    nvalid, nmal = (15000, 12000) if ctx.thorough() else (1200, 1600)
     opts = fmtlib.option_settings()
     docs, labels, meta = [], [], []
     for c in fmtlib.load_corpus("C09"):
